@@ -273,6 +273,12 @@ func (a *jwtAuthenticator) getCacheTTL(key *jose.JSONWebKey) time.Duration {
 		},
 		func() time.Duration { return 0 })
 
+	// if the certificate expires too soon for the key to be cached, the configured
+	// or default ttl must not extend the lifetime of the key
+	if len(key.Certificates) != 0 && certTTL == 0 {
+		return 0
+	}
+
 	configuredTTL := x.IfThenElseExec(a.ttl != nil,
 		func() time.Duration { return *a.ttl },
 		func() time.Duration { return defaultJWTAuthenticatorTTL })
